@@ -71,7 +71,13 @@ class Sidecar:
                 continue
             src = open(os.path.join(cdir, fn)).read()
             tree = ast.parse(src, filename=fn)
+            self.consts: Dict[str, Any] = {}
             for st in tree.body:
+                if isinstance(st, ast.Assign) and len(st.targets) == 1 and isinstance(st.targets[0], ast.Name):
+                    # module-level constant (shape tables): literals and dict(...) of earlier constants only
+                    self.consts[st.targets[0].id] = eval(compile(ast.Expression(st.value), fn, 'eval'),
+                                                         {'__builtins__': {'dict': dict}}, dict(self.consts))
+                    continue
                 if isinstance(st, ast.FunctionDef):
                     self.spec_funcs[st.name] = st
                 elif isinstance(st, ast.Expr) and isinstance(st.value, ast.Call) and isinstance(st.value.func, ast.Name) \
@@ -81,9 +87,11 @@ class Sidecar:
                 if any(w in line for w in ('assumes=', 'trusted=True')):
                     self.assumption_scan.append(f'{fn}:{ln}: {line.strip()[:120]}')
 
-    @staticmethod
-    def _lit(node):
-        return ast.literal_eval(node)
+    def _lit(self, node):
+        try:
+            return ast.literal_eval(node)
+        except ValueError:
+            return eval(compile(ast.Expression(node), '<sidecar>', 'eval'), {'__builtins__': {'dict': dict}}, dict(self.consts))
 
     def _clauses(self, node, default_kind):
         """lambda | (lambda, [props]) | (lambda, [props], kind) | list of those."""
@@ -179,11 +187,14 @@ class Engine(Core, Expr, Calls, Builtins, Stmts):
         self.entry_env: Dict[str, SV] = {}
         self.standing: List[Any] = []
         self.iter_facts_added = set()
+        self.kept_cache = set()
+        self.frame_sites = set()
         self.hashable_terms = set()
         self.mutable_terms = set()
         self.map_value_kind: Dict[str, str] = {}
         self.total_attr_roots = set()
         self.replaced = []
+        self.frame_ctr = 0
         self.th.used_cls = set()
         self.th.used_attrs = set()
 
@@ -199,6 +210,12 @@ class Engine(Core, Expr, Calls, Builtins, Stmts):
         if key is None or self.cur_contract is None:
             return None
         return self.cur_contract.shapes.get(key)
+
+    def mkval(self, term, kind=None, **kw) -> VVal:
+        """VVal from a shape string; 'rec:Field' also fixes the static class."""
+        if kind and kind.startswith('rec:'):
+            return VVal(term, kind='rec', cls=kind[4:], **kw)
+        return VVal(term, kind=kind, **kw)
 
     # ------------------------------------------------------------------
     def verify(self, con: Contract) -> Dict[str, Any]:
@@ -223,7 +240,7 @@ class Engine(Core, Expr, Calls, Builtins, Stmts):
         pnames = [p.arg for p in a.posonlyargs + a.args + a.kwonlyargs]
         for p in pnames:
             kind = con.shapes.get(p)
-            sv = VVal(z3.Const(p, th.Val), fresh=False, kind=kind)
+            sv = self.mkval(z3.Const(p, th.Val), kind, fresh=False)
             env[p] = sv
             if p in con.mutable:
                 self.mutable_terms.add(str(sv.term))
@@ -237,9 +254,11 @@ class Engine(Core, Expr, Calls, Builtins, Stmts):
         for k, kind in con.shapes.items():
             if k.startswith('free:'):
                 n = k[5:]
-                env[n] = VVal(z3.Const(n, th.Val), kind=kind or None)
+                env[n] = self.mkval(z3.Const(n, th.Val), kind or None)
                 pnames.append(n)
         self.entry_env = dict(env)
+        self.frame_ctr += 1
+        env['$frame'] = self.frame_ctr
         st = State(dict(env), [])
         for (lam, _p, _k) in con.requires + con.assumes:
             st.add(self.eval_clause(lam, env, st))
@@ -329,6 +348,8 @@ class Engine(Core, Expr, Calls, Builtins, Stmts):
         s.set('timeout', timeout_ms)
         for ax in self.th.axioms():
             s.add(ax)
+        for f in self.standing:
+            s.add(f)
         for f in ob.pc:
             s.add(f)
         s.add(z3.Not(ob.goal))
